@@ -21,6 +21,19 @@ META = {
 
 
 def run(eng, ctx):
+    # the reader must be able to resume after it has raised: iteration driven by a generator cannot (an exception leaving a generator finalises it,
+    # every later next() reports exhaustion).  Checked before anything else, because generators make the other rules undecidable (G0).
+    import ast as _ast
+
+    ctx.rule("C05.D5", "the reader does not iterate through a generator of its own: an exception that leaves a generator (raise mode) finalises it and the reader cannot resume")
+    rmod, rcls = eng.reader_cls.split(".")
+    gens = [(f_, n_) for f_ in eng.repo.methods(rmod, rcls) for n_ in _ast.walk(f_.node) if isinstance(n_, (_ast.Yield, _ast.YieldFrom))]
+    for f_, n_ in gens[:2]:
+        ctx.bad("C05.D5", f_.qualname, "generator-based scanning", expected="plain methods: the reader keeps working after an exception", found="`yield` in a reader method: once an error is raised out of it (quitonerror = raise) the generator is closed and no further frame is returned", **eng.loc(f_, n_))
+    if not gens:
+        ctx.ok("C05.D5", eng.reader_cls, "no generator in the reader", found=f"{len(eng.repo.methods(rmod, rcls))} methods", file=eng.repo.relpath(rmod), line=0)
+    else:
+        return
     m = SH.ReaderModel(eng)
     asm = m.asm
     rd = m.read
